@@ -221,11 +221,11 @@ func (g *typeGraph) eventAttrTypes() map[enumspb.EventType]int {
 // against the pinned API: persistence tasks, CHASM nodes, opaque replication-task payloads). A DataBlob field
 // that is neither in the code's dataBlobFieldNames nor listed here makes the C12 blob obligation fail.
 var reviewedNonEventBlobs = map[string]bool{
-	"go.temporal.io/server/api/adminservice/v1.AddTasksRequest_Task.Blob":          true, // serialized persistence task
-	"go.temporal.io/server/api/common/v1.HistoryTask.Blob":                         true, // DLQ: serialized persistence task
-	"go.temporal.io/server/api/persistence/v1.ChasmComponentAttributes_Task.Data":  true, // CHASM task payload
-	"go.temporal.io/server/api/persistence/v1.ChasmNode.Data":                      true, // CHASM node payload
-	"go.temporal.io/server/api/replication/v1.ReplicationTask.Data":                true, // opaque "task_type + data" payload, unused by history replication
+	"go.temporal.io/server/api/adminservice/v1.AddTasksRequest_Task.Blob":         true, // serialized persistence task
+	"go.temporal.io/server/api/common/v1.HistoryTask.Blob":                        true, // DLQ: serialized persistence task
+	"go.temporal.io/server/api/persistence/v1.ChasmComponentAttributes_Task.Data": true, // CHASM task payload
+	"go.temporal.io/server/api/persistence/v1.ChasmNode.Data":                     true, // CHASM node payload
+	"go.temporal.io/server/api/replication/v1.ReplicationTask.Data":               true, // opaque "task_type + data" payload, unused by history replication
 }
 
 type internTable struct {
